@@ -39,9 +39,13 @@ func (m *Model) PullAirTemperature(ctx context.Context, opts ...resource.ReadOpt
 		defer close(send)
 		for change := range recv {
 			value := change.Value.(*traits.AirTemperature)
-			send <- PullAirTemperatureChange{
+			select {
+			case <-ctx.Done():
+				return // the subscriber has gone away: nobody may be receiving any more
+			case send <- PullAirTemperatureChange{
 				Value:      value,
 				ChangeTime: change.ChangeTime,
+			}:
 			}
 		}
 	}()
